@@ -49,6 +49,12 @@ def queries(tier, seed):
         for w in v['jwheres']:
             for jt in ('INNER JOIN', 'LEFT JOIN'):
                 qs.append(('join', {'kind': 'select', 'items': lst, 'where': w, 'join': {'type': jt, 'keys': [(('f', 'a', 1), ('f', 'b', 1))]}}))
+    # beyond the item bound: a few fixed lists of 4-6 items (scale probes; every kind appears, one UNNEST at most)
+    it_ = v['items']
+    for lst in ([it_[0], it_[1], it_[3], it_[4]], [it_[8], it_[0], it_[5], it_[9], it_[2]], [it_[3], it_[11], it_[0], it_[1], it_[2], it_[7]], [it_[6], it_[6], it_[10], it_[12], it_[4]],
+                [it_[1]] * 6, [it_[9], it_[8], it_[9], it_[0]]):
+        for w in v['wheres'][:3]:
+            qs.append(('plain', {'kind': 'select', 'items': list(lst), 'where': w, 'join': None}))
     # wide rows: two-digit field numbers (a10, a11, a12) in items and EXCEPT lists
     for ex in ([('f', 'a', 3), ('f', 'a', 11)], [('f', 'a', 11), ('f', 'a', 2), ('f', 'a', 10)], [('f', 'a', 12)], [('f', 'a', 1), ('f', 'a', 10, 'a[N]')]):
         qs.append(('wide', {'kind': 'select', 'items': [('star', None)], 'except_cols': ex, 'where': None, 'join': None}))
